@@ -265,7 +265,7 @@ fn fill_banks(
         {
             let highest_position = offset + size - 1;
 
-            if output.len() < highest_position
+            if output.len() <= highest_position
             {
                 output.write_bit(highest_position, false);
             }
